@@ -496,6 +496,8 @@ class FitBase(FileIOMixin, object):
             self._nexus.get(_error_name).mark_for_update()
         if self._cost_function_pointwise is not None:
             self._fitter.parameter_to_minimize = self._cost_function.name
+        if self._implicit_no_errors and self.has_data_errors:
+            self._on_error_change()  # cost function "chi2" must stop ignoring uncertainties
 
     @property
     def data_error(self):
